@@ -18,6 +18,17 @@ CHECKS = {
         "Alphabet bounded to two short names and two plugin classes; plugin identity = (class, format).",
         "DESIGN.md section 4 / C19",
     ),
+    "C12": (
+        "model_checking",
+        "E2",
+        "exhaustive enumeration of all labelled reference DAGs (n<=5 quick, n<=6 thorough) x explicit-state BFS over "
+        "set/update/copy/export histories on the real Parameters object, bit-exact topological reference evaluator",
+        "Every dependency graph in every declaration order up to the bound is constructed by every route and driven "
+        "through every update history up to the depth bound; all reachable parameter states are compared bit-exactly "
+        "with an independent evaluation. Order dependence and staleness are properties of all orderings and histories.",
+        "Expression forms limited to +, *, sqrt; 3 value vectors; label alphabet fixed.",
+        "DESIGN.md section 4 / C12",
+    ),
 }
 
 PENDING_REASON = "check under construction in this round - not claimed until its check runs clean on the unchanged tree"
@@ -59,7 +70,7 @@ def main():
         },
         "engines": [
             {"name": "E1", "path": "vf/core.py", "serves_properties": [], "kind_free_text": "bounded exhaustive input-space enumeration with reference oracles, 16 workers"},
-            {"name": "E2", "path": "vf/explore.py", "serves_properties": ["C19"], "kind_free_text": "explicit-state BFS over event histories replayed on fresh real objects, full-state digests"},
+            {"name": "E2", "path": "vf/explore.py", "serves_properties": ["C12", "C19"], "kind_free_text": "explicit-state BFS over event histories replayed on fresh real objects, full-state digests"},
             {"name": "E4", "path": "vf/tlc.py", "serves_properties": ["C19"], "kind_free_text": "TLA+ model explored by TLC; every edge of the dumped state graph replayed against the implementation"},
         ],
         "checks": checks,
